@@ -20,10 +20,10 @@ M = [
   "let dict_size = if dict_size_provided < 0x1000 {\n            0x1000", "let dict_size = if dict_size_provided < 0x100 {\n            0x100"),
  ("m08_literal_probs_not_refilled", "C02 C14", "literal table not refilled on state reset with same lc+lp", "src/decode/lzma.rs",
   "self.literal_probs.fill(0x400);", ""),
- ("m09_vli_limit", "C03 C06", "multi-byte integers limited to 3 bytes", "src/decode/xz.rs",
-  "for i in 0..9 {", "for i in 0..3 {"),
- ("m11_carry_condition", "C04", "range encoder treats low == 0xFF000000 as flushable", "src/encode/rangecoder.rs",
-  "if self.low < 0xFF00_0000 || self.low > 0xFFFF_FFFF {", "if self.low <= 0xFF00_0000 || self.low > 0xFFFF_FFFF {"),
+ ("m09_vli_limit", "C03 C06", "multi-byte integers limited to 2 bytes", "src/decode/xz.rs",
+  "for i in 0..9 {", "for i in 0..2 {"),
+ ("m11_carry_condition", "C04", "range encoder defers bytes 0xFE.. as if a carry could still reach them", "src/encode/rangecoder.rs",
+  "if self.low < 0xFF00_0000 || self.low > 0xFFFF_FFFF {", "if self.low < 0xFE00_0000 || self.low > 0xFFFF_FFFF {"),
  ("m12_lzma2_chunk_size", "C04", "LZMA2 writer reads 64 KiB + 1 at a time", "src/encode/lzma2.rs",
   "let mut buf = vec![0u8; 0x10000];", "let mut buf = vec![0u8; 0x10001];"),
  ("m13_max_required_input", "C05 C15", "MAX_REQUIRED_INPUT 20 -> 8", "src/decode/lzma.rs",
